@@ -1,5 +1,6 @@
 import Momo.Proof.HashTableSummary
 import Momo.Proof.TrEqHashProbe
+import Momo.Proof.TrEqOpenBytes
 import Driver.HashTable
 /-!
 # C01 — Hash set/map contents always equal the abstract set/map
@@ -624,3 +625,89 @@ theorem C01_history_full_false : ¬ C01_history_full := by
   cases h1
 
 end Momo.HT
+
+/-! ## Byte level: the open-addressing buckets `BucketOpenN1` / `BucketOpen8` under the C01 model
+
+`HT` keeps a bucket as the list of its items in storage order plus flags. For the two bucket classes with one state byte
+the byte array is modelled as laid out in the headers (`Momo/Model/OpenBytes.lean`, invariant and `Find` theorems in
+`Props/C13.lean`). Below: the abstract bucket is the abstraction of the byte-level bucket, `AddCrt` / `Remove` / `IsFull` commute
+with it, `HT`'s in-bucket lookup (`keyIdx`) agrees with the byte-level `Find` of every variant (scalar loop in forward or
+reverse item order, SSE2 mask, SWAR mask), hence `pvFind` over byte-level buckets is `HT.findTable` and `C01_find_iff`
+holds for it. Hash codes are 64-bit (`hf x < 2^64`). -/
+namespace Momo.OpenB
+open Momo
+
+/-- **abstraction.** For a bucket of the C01 model with at most `maxCount` items, the bytes `bytesOf` assigns to it satisfy
+the byte-level invariant for its items' hash codes; `IsFull` and the count read off the bytes are the model's; the bytes after
+a byte-level `AddCrt` are the bytes of `HT.pushItem`, the bytes after a byte-level `Remove` those of `HT.removeAt`
+(swap-with-last); and every byte-level bucket that satisfies the invariant carries exactly the canonical item bytes. -/
+theorem C01_bucket_abstraction_bytes (v : Variant) (mc : Nat) (rev : Bool) (hf : Nat → Nat) (sp : HT.Spec) (bk : HT.Bucket)
+    (hfit : v.fits mc rev) (hmc : sp.maxCount = mc) (hunl : sp.unlimited = false) (hlen : bk.items.length ≤ mc)
+    (hhf : ∀ x, hf x < 2 ^ 64) :
+    (bytesOf mc rev hf bk).Inv (hashes hf bk.items) ∧
+    ((bytesOf mc rev hf bk).isFull = HT.isFull sp bk) ∧
+    ((bytesOf mc rev hf bk).count = bk.items.length) ∧
+    (∀ it, bk.items.length < mc → ∀ j, j < mc →
+        ((bytesOf mc rev hf bk).addCrt (hf it.key)).data j = (bytesOf mc rev hf (HT.pushItem sp it bk)).data j) ∧
+    (∀ index, index < bk.items.length → ∀ j, j < mc →
+        ((bytesOf mc rev hf bk).remove index).data j = (bytesOf mc rev hf (HT.removeAt index bk)).data j) ∧
+    (∀ (b : Bucket) (hs : List Nat), b.Inv hs → ∀ j, j < b.maxCount →
+        b.data j = (encode b.maxCount b.reverse hs b.maxProbeExp).data j) :=
+  ⟨bytesOf_inv v mc rev hf bk hfit hlen hhf, (bytesOf_step v mc rev hf sp bk hfit hmc hunl hlen hhf).1,
+   (bytesOf_step v mc rev hf sp bk hfit hmc hunl hlen hhf).2.1, (bytesOf_step v mc rev hf sp bk hfit hmc hunl hlen hhf).2.2.1,
+   (bytesOf_step v mc rev hf sp bk hfit hmc hunl hlen hhf).2.2.2, fun _ _ hI j hj => inv_eq_encode hI j hj⟩
+
+/-- **in-bucket lookup.** For every bucket with distinct keys, `Find` on its bytes — searching the short hash of `hf k` with the
+predicate `key(item) == k`, by the scalar loop (either item order), the SSE2 mask or the SWAR mask — returns the logical
+position `HT.keyIdx` returns, or nothing when it returns nothing. -/
+theorem C01_bucket_lookup_bytes (v : Variant) (mc : Nat) (rev : Bool) (hf : Nat → Nat) (bk : HT.Bucket) (k : Nat)
+    (hfit : v.fits mc rev) (hlen : bk.items.length ≤ mc) (hhf : ∀ x, hf x < 2 ^ 64)
+    (hnd : (bk.items.map (·.key)).Nodup) :
+    lookupB v mc rev hf bk k = HT.keyIdx bk.items k :=
+  lookupB_eq_keyIdx v mc rev hf bk k hfit hlen hhf hnd
+
+/-- **`C01_find_iff` at byte level.** For every table satisfying the C01 invariant with an `OpenN1<maxCount, reverse>` /
+`Open8` bucket description, `pvFind` evaluated with the byte-level `Find` in every bucket it visits returns the position
+`HT.findTable` returns; hence every key that should be present is found and no other key is. -/
+theorem C01_find_iff_bytes (v : Variant) (mc : Nat) (rev : Bool) (sp : HT.Spec) (hf : Nat → Nat) (t : HT.Table)
+    (hI : HT.TableInv sp hf t) (hfit : v.fits mc rev) (hmc : sp.maxCount = mc) (hunl : sp.unlimited = false)
+    (hhf : ∀ x, hf x < 2 ^ 64) (k : Nat) :
+    findTableB (fun bk => lookupB v mc rev hf bk k) sp hf t k = HT.findTable sp hf t k ∧
+    ((findTableB (fun bk => lookupB v mc rev hf bk k) sp hf t k).isSome ↔ k ∈ (HT.traverse t).map (·.key)) := by
+  have e := findTableB_eq v mc rev sp hf t hI hfit hmc hunl hhf k
+  exact ⟨e, by rw [e]; exact HT.findTable_spec sp hf t hI k⟩
+
+/-- the slot arithmetic as translated from the header: `ptGetItemPtr(index)` and `pvGetShortHash(index)` address the slot `phys`
+(so item and short hash of one logical index share a slot), `pvGetState()` is the byte of the last logical index -/
+theorem C01_slots_translated (b : Bucket) (h0 : 0 < b.maxCount) (i : Nat) (hi : i < b.maxCount) :
+    Tr.openN1_itemIndex b.reverse b.maxCount i = phys b.maxCount b.reverse i ∧
+    Tr.openN1_shortHashIndex b.reverse b.maxCount i = phys b.maxCount b.reverse i ∧
+    Tr.openN1_stateIndex b.reverse b.maxCount = phys b.maxCount b.reverse (b.maxCount - 1) := by
+  refine ⟨TrEq.tr_ob_itemIndex _ _ i hi, TrEq.tr_ob_shortHashIndex b i hi, ?_⟩
+  rw [TrEq.tr_ob_stateIndex b h0, stateIdx_eq b h0]
+
+/-! Non-vacuity: the three variants on concrete buckets of the C01 model. -/
+def exItems : List HT.Item := [⟨10, 1⟩, ⟨11, 2⟩, ⟨12, 3⟩]
+def exBk : HT.Bucket := ⟨exItems, true, (0, 0)⟩
+/-- every key has the same hash code: all short hashes equal, the key predicate decides -/
+example : [10, 11, 12, 13].map (lookupB .n1 3 true (fun _ => 2 ^ 63) exBk) = [some 0, some 1, some 2, none] := by decide +kernel
+example : [10, 11, 12, 13].map (lookupB .sse 7 false (fun _ => 2 ^ 63) exBk) = [some 0, some 1, some 2, none] := by decide +kernel
+example : [10, 11, 12, 13].map (lookupB .swar 7 false (fun x => x <<< 40) exBk) = [some 0, some 1, some 2, none] := by decide +kernel
+example : [10, 11, 12, 13].map (HT.keyIdx exItems) = [some 0, some 1, some 2, none] := by decide
+example : Variant.fits .swar 7 false := ⟨by decide, by decide, fun _ => ⟨rfl, rfl⟩⟩
+
+/-- a real `Open8` table of the C01 model (7 slots per bucket, triangular probing) reached by a history … -/
+def exOpen8 : HT.Spec := Driver.HashTable.mkSpec "Open8" 7 8 8 false true false 0 1
+def exHf8 : Nat → Nat := fun x => (x * 11400714819323198485) % 2 ^ 64
+def exOps8 : List HT.Op := [.ins false 1 10 {}, .ins false 2 20 {}, .ins false 3 30 {}, .rem 2]
+theorem exOpen8_ok : HT.SpecOK exOpen8 := HT.mkSpec_ok _ _ _ _ _ _ _ _ _ (by decide) (by decide)
+/-- … satisfies the invariant, so its byte-level lookup (SWAR variant) finds exactly the keys it holds -/
+example (k : Nat) :
+    (findTableB (fun bk => lookupB .swar 7 false exHf8 bk k) exOpen8 exHf8 (HT.run exOpen8 exHf8 {} exOps8).1.a k).isSome
+      ↔ k ∈ (HT.traverse (HT.run exOpen8 exHf8 {} exOps8).1.a).map (·.key) :=
+  (C01_find_iff_bytes .swar 7 false exOpen8 exHf8 _ (HT.C01_history_partial exOpen8 exHf8 exOpen8_ok exOps8 (by decide)).2.1
+    ⟨by decide, by decide, fun _ => ⟨rfl, rfl⟩⟩ rfl rfl (fun x => Nat.mod_lt _ (by decide)) k).2
+example : [1, 2, 3].map (fun k => (findTableB (fun bk => lookupB .swar 7 false exHf8 bk k) exOpen8 exHf8
+    (HT.run exOpen8 exHf8 {} exOps8).1.a k).isSome) = [true, false, true] := by decide +kernel
+
+end Momo.OpenB
